@@ -109,6 +109,16 @@ pub fn next_down(x: f64) -> f64 {
     -next_up(-x)
 }
 pub fn step(x: f64, k: i64) -> f64 {
+    if k.abs() > 64 && x.is_finite() {
+        // many ulps at once: move along the ordered-integer image of the f64 line
+        let key = |v: f64| -> i64 {
+            let b = v.to_bits() as i64;
+            if b < 0 { i64::MIN - b } else { b }
+        };
+        let unkey = |i: i64| -> f64 { f64::from_bits(if i < 0 { (i64::MIN - i) as u64 } else { i as u64 }) };
+        let r = unkey(key(x).saturating_add(k));
+        return if r.is_nan() { if k > 0 { f64::INFINITY } else { f64::NEG_INFINITY } } else { r };
+    }
     let mut r = x;
     for _ in 0..k.abs() {
         r = if k > 0 { next_up(r) } else { next_down(r) };
@@ -573,7 +583,20 @@ pub fn maybe_constant(ctx: &mut Ctx, den: u64, allow_extremes: bool) -> Option<D
     let n = if allow_extremes { c.len() } else { c.len() - 3 };
     let d = c[ctx.below(n as u64) as usize].1;
     ctx.label("operand:published-constant");
-    let d = match ctx.below(6) {
+    let d = match ctx.below(7) {
+        6 if d.lo != 0.0 && d.lo.abs() > 1e-300 => {
+            // the constant with its low word moved by a few ulps: "almost the constant"
+            ctx.label("operand:constant-perturbed");
+            let j = match ctx.below(3) {
+                0 => ctx.range(1, 8),
+                1 => ctx.range(9, 128),
+                _ => 1i64 << ctx.range(7, 20),
+            };
+            let j = if ctx.flag() { -j } else { j };
+            let lo = step(d.lo, j);
+            let p = Dd::new(d.hi, lo);
+            if p.valid() { p } else { d }
+        }
         0 => d.neg(),
         1 if d.hi.abs() < 1e300 && d.hi.abs() > 1e-300 => Dd::new(d.hi * 2.0, d.lo * 2.0),
         2 if d.hi.abs() < 1e300 && d.hi.abs() > 1e-290 => Dd::new(d.hi * 0.5, d.lo * 0.5),
@@ -617,5 +640,23 @@ pub fn derived_operand(ctx: &mut Ctx, emin: i64, emax: i64) -> Option<Dd> {
         Some(d)
     } else {
         None
+    }
+}
+
+#[cfg(test)]
+mod step_tests {
+    use super::*;
+    #[test]
+    fn big_steps_equal_repeated_small_steps() {
+        for &x in &[1.0f64, -1.0, 1e-310, -1e-310, 0.0, 5e-324, -5e-324, 1.5e300] {
+            for &k in &[65i64, -65, 200, -200, 1000, -1000] {
+                let mut r = x;
+                for _ in 0..k.abs() {
+                    r = if k > 0 { next_up(r) } else { next_down(r) };
+                }
+                let s = step(x, k);
+                assert!(s == r, "step({x:e}, {k}) = {s:e} but repeated stepping gives {r:e}");
+            }
+        }
     }
 }
